@@ -79,7 +79,7 @@ Outcome run_case(const json& c, const std::string& prop) {
 
     int style = c.value("style", 0);
     int left_out = c.value("left_out", -1);
-    if (style != 2) {
+    if (style != 2 && style != 4) {
         left_out = -1;
     }
     std::vector<int> order = c.value("order", std::vector<int>());
@@ -91,7 +91,8 @@ Outcome run_case(const json& c, const std::string& prop) {
     // C09 histories: leaf classes registered only before the second update,
     // so that the hash changes while pointers are alive
     std::vector<int> late;
-    if (focus.vptr && style == 2 && c.value("history", false)) {
+    if (focus.vptr && (style == 2 || style == 4) &&
+        c.value("history", false)) {
         for (int x : c.value("late", std::vector<int>())) {
             static const int leaves[] = {index_of<G>, index_of<E>,
                                          index_of<F>, index_of<VY>};
@@ -468,6 +469,39 @@ Outcome run_case(const json& c, const std::string& prop) {
                                         " instead of a method_table_error "
                                         "carrying its type");
                                 }
+                                // the same through the shared pointer
+                                // flavour, lvalue and rvalue
+                                for (int rv = 0; rv < 2 && o.ok; ++rv) {
+                                    auto sp = eng.objects
+                                                  .template shared_as<St>(d);
+                                    ErrorSeen e2 = guarded([&] {
+                                        if (rv) {
+                                            auto p = virtual_shared_ptr<
+                                                St, P>::final(std::move(sp));
+                                            (void)p;
+                                        } else {
+                                            const auto& csp = sp;
+                                            auto p = virtual_shared_ptr<
+                                                St, P>::final(csp);
+                                            (void)p;
+                                        }
+                                    });
+                                    if (e2.kind != ErrorSeen::method_table ||
+                                        e2.type != Eng::static_id_of(d)) {
+                                        o.fail(
+                                            std::string(
+                                                "typed-final-shared: "
+                                                "virtual_shared_ptr<") +
+                                            class_name(sidx) +
+                                            ">::final given a shared_ptr to "
+                                            "an object of dynamic type " +
+                                            class_name(d) + " reported " +
+                                            err_name(e2) +
+                                            " instead of a "
+                                            "method_table_error carrying "
+                                            "its type");
+                                    }
+                                }
                             }
                         });
                     });
@@ -654,6 +688,7 @@ Outcome run_case(const json& c, const std::string& prop) {
     o.classes.push_back(style == 0       ? "style_all_in_one"
                             : style == 1 ? "style_per_edge"
                             : style == 2 ? "style_per_class"
+                            : style == 4 ? "style_per_class_type_list"
                                          : "style_redundant_mix");
     return o;
 }
